@@ -1091,7 +1091,7 @@ def run(ctx):
                            # along for two classes in the quick tier (thorough: all)
                            "persistent_hedger": i < 2,
                            # DESIGN 4/C17 B: fixpoint for 3 classes, depth 3 for the rest (thorough: fixpoint for all)
-                           "max_depth": None if i < 3 else 3})
+                           "max_depth": None if i < 3 else 4})   # 4 = constructor + 3 operations
         # two-instrument worlds (a second instrument shares a buffer of the first): every primary class
         for i, prim in enumerate(primaries):
             blocks.append({"primary": prim, "derivative": DERIVATIVES[(i + 3) % len(DERIVATIVES)],
